@@ -172,7 +172,8 @@ def _parse_rejected(res, label):
     out = res.stdout
     m = re.search(r'<<"VALIDATED", (\d+), "REJECTED", (\d+)>>', out)
     if not m:
-        tail = '\n'.join(out.splitlines()[-60:])
+        i = out.find('Error:')
+        tail = out[i:i + 3000] if i >= 0 else '\n'.join(out.splitlines()[-40:])
         raise MachineryFailure('trace validation (%s) did not complete\n%s' % (label, tail))
     rej = {}
     for line in printed_tuples(out, 'REJ'):
